@@ -5,6 +5,7 @@ import warnings
 import numpy as np
 
 from .. import gen
+from .. import forms as vforms
 from ..oracles import matching as OM
 from ..util import scale_of
 
@@ -146,6 +147,12 @@ def run_case(ctx, k, rng):
                 ok = ok and float(vi) == v
                 info["int"] = vi
                 ctx.note("int-form-cases")
+            if A.size and B.size:
+                (fa, na), (fb, nb) = vforms.relayout(rng, A), vforms.relayout(rng, B)
+                vf = call(ctx, fa, fb)
+                ok = ok and float(vf) == v
+                info["layout"] = [na, nb, vf]
+                ctx.note("layout-form-cases")
             ctx.check("list/int forms agree", ok, base=v, **info)
         except Exception as e:
             ctx.exception("list/int forms agree", e)
